@@ -1,5 +1,5 @@
 (* Pinned statements for C10: a changed statement or a new axiom fails the check. *)
-From SwimV Require Import Model.Codec Proofs.Streaming Proofs.CodecProofs Props.C10.
+From SwimV Require Import Model.Codec Proofs.Streaming Proofs.CodecProofs Proofs.ProtoFrameProofs Props.C10.
 Open Scope N_scope.
 Check (C10_any_fragmentation_generic) : (forall (step : dstate -> bytes -> dstate * bytes * dres) (enc : msg -> option bytes) (valid : msg -> Prop) (unread : dstate -> bytes), unread SHeader = [] -> (forall m e, valid m -> enc m = Some e -> e <> []) -> (forall s b m e rest, valid m -> enc m = Some e -> unread s ++ b = e ++ rest -> step s b = (SHeader, rest, DSome m)) -> (forall s b m p q, valid m -> enc m = Some (p ++ q) -> q <> [] -> unread s ++ b = p -> exists s' b', step s b = (s', b', DNone) /\ unread s' ++ b' = p) -> (forall s b, unread s ++ b = [] -> exists s' b', step s b = (s', b', DNone) /\ unread s' ++ b' = []) -> forall chunks ms all, Forall valid ms -> enc_all enc ms = Some all -> concat chunks = all -> feed_items step unread SHeader [] chunks = (ms, [], true)).
 Print Assumptions C10_any_fragmentation_generic.
@@ -17,3 +17,11 @@ Check (C10_lane_request_any_chunking) : (forall i chunks ms all, Forall (valid_l
 Print Assumptions C10_lane_request_any_chunking.
 Check (C10_no_panic) : (forall c s b, panic_free c = true -> snd (dstep c s b) <> DPanic).
 Print Assumptions C10_no_panic.
+Check (C10_routed_request_frames) : (frame_spec (dec_proto true) (encode CReq) valid_req).
+Print Assumptions C10_routed_request_frames.
+Check (C10_routed_response_frames) : (frame_spec (dec_proto false) (encode CResp) valid_resp).
+Print Assumptions C10_routed_response_frames.
+Check (C10_routed_request_any_chunking) : (forall chunks ms all, Forall valid_req ms -> enc_all (encode CReq) ms = Some all -> concat chunks = all -> feed_items (dstep CReq) no_unread SHeader [] chunks = (ms, [], true)).
+Print Assumptions C10_routed_request_any_chunking.
+Check (C10_routed_response_any_chunking) : (forall chunks ms all, Forall valid_resp ms -> enc_all (encode CResp) ms = Some all -> concat chunks = all -> feed_items (dstep CResp) no_unread SHeader [] chunks = (ms, [], true)).
+Print Assumptions C10_routed_response_any_chunking.
